@@ -124,13 +124,18 @@ def placements(vars_, tier="quick"):
     return out
 
 
-def make_frames(pl):
+IDX = [7, 2, 5, 11]
+
+
+def make_frames(pl, reindex=False):
     nd = base_rows().copy()
+    if reindex:  # new data that was filtered / sorted: labels are not 0..n-1
+        nd.index = IDX[: len(nd)]
     clean = nd.copy()
     for v, rows in pl.items():
         col = nd[v].astype(object).copy()
         for i in rows:
-            col[i] = unseen_value(v, i)
+            col.iloc[i] = unseen_value(v, i)
         nd[v] = col if v != "k" else col.astype(int)
     return nd, clean
 
@@ -206,8 +211,8 @@ def check_placement(case, acc):
     used = sorted(atoms_of(d.split("~")[1]) & CATVARS)
     problems = {}
     n = 0
-    for pl in placements(used):
-        nd, clean = make_frames(pl)
+    for pl, reindex in [(p_, r_) for p_ in placements(used) for r_ in (False, True)]:
+        nd, clean = make_frames(pl, reindex)
         common_vars = set()
         if dm.common is not None:
             for name in dm.common.terms:
@@ -228,7 +233,7 @@ def check_placement(case, acc):
                 out, exc, ours = run_eval(dm.common, nd)
                 acc.calls += 2
                 acc.traces += 1
-                tag = f"{d!r} mode={mode} unseen={pl}"
+                tag = f"{d!r} mode={mode} unseen={pl}" + (" (frame index " + str(IDX[: len(nd)]) + ")" if reindex else "")
                 if mode == "error" and hit:
                     if exc is None:
                         problems.setdefault(("error-raises", "no-exception"), f"{tag}: common evaluation did not raise")
